@@ -64,7 +64,12 @@ func (ex *Exec) strBytes(s Str) []*Term {
 				}
 				up := f.Var(fmt.Sprintf("eip55case!%s!%d", key, 2*i+half), SBool, nil, nil)
 				letter := f.Ite(up, f.Add(nib, f.I64('A'-10)), f.Add(nib, f.I64('a'-10)))
-				out = append(out, f.Ite(f.Lt(nib, f.I64(10)), f.Add(nib, f.I64('0')), letter))
+				ch := f.Ite(f.Lt(nib, f.I64(10)), f.Add(nib, f.I64('0')), letter)
+				if ex.hexCharNib == nil {
+					ex.hexCharNib = map[int]*Term{}
+				}
+				ex.hexCharNib[ch.ID] = nib // lets hexDecode see through decode(encode(x))
+				out = append(out, ch)
 			}
 		}
 		ex.noteAssumption("EIP-55 letter case of Address.Hex() is an uninterpreted function of the address")
